@@ -34,6 +34,9 @@ func init() {
 			{ID: "R01l", Floor: 2, Doc: "index generation decides per section by its own CID (identity and size gates), so an index-backed reader sees every indexable block a sequential reader sees (= R03c)", Run: ruleR03c},
 			{ID: "R01m", Floor: 1, Doc: "an object handed back to a sync.Pool is not kept: when the argument of Pool.Put is read from a struct field, nil is stored to that field on the same path (a reader that keeps using, and re-pooling, a bufio.Reader it no longer owns reads another reader's archive)", Run: ruleR01m},
 			{ID: "R01n", Floor: 4, Doc: "every traversal writer emits a block once across all roots (one visited-set), like the de-duplicating writers (= R15a)", Run: ruleR15a},
+			{ID: "R01o", Floor: 1, Doc: "a reader that re-hashes what it reads uses the CID's own digest length (= R02h)", Run: ruleR02h},
+			{ID: "R01p", Floor: 2, Doc: "a block enters the index only after its section was written: a Put that failed must not make the next Put of that block a silent no-op (the CAR then lacks a block the writer acknowledged) (= R06a)", Run: ruleR06a},
+			{ID: "R01q", Floor: 4, Doc: "the deferred writer opens its file truncating: a stale tail of a longer earlier file would be read back as further sections (= R20b)", Run: ruleR20b},
 		},
 	})
 }
@@ -286,8 +289,10 @@ func ruleR01b(c *Ctx, r *Report) {
 				}
 				if bad == "" {
 					for _, ret := range returnsOf(fn) {
-						if !isNilConst(ret.Results[0]) && canon(ret.Results[0]) != ssa.Value(mk) {
-							bad = "LdRead returns something other than the filled buffer"
+						for _, leaf := range phiLeaves(ret.Results[0]) {
+							if !isNilConst(leaf) && leaf != ssa.Value(mk) {
+								bad = "LdRead returns something other than the filled buffer"
+							}
 						}
 					}
 				}
@@ -553,6 +558,13 @@ func ruleR01m(c *Ctx, r *Report) {
 			n++
 			ord++
 			key := fmt.Sprintf("pool-release@%s#%d", fnKey(fn), ord)
+			// the struct the field belongs to must be the shared one, not a by-value copy of it
+			if al, isAl := canon(fa.X).(*ssa.Alloc); isAl {
+				if _, isStruct := al.Type().Underlying().(*types.Pointer).Elem().Underlying().(*types.Struct); isStruct {
+					r.Viol(key, c.Pos(ci.Pos()), "the object put back into the pool is read from a by-value copy of the struct (value receiver or local copy): clearing the field of the copy leaves the original pointing at an object it no longer owns")
+					return
+				}
+			}
 			cleared := false
 			after := false
 			for _, x := range ci.Block().Instrs {
